@@ -735,12 +735,70 @@ def rule_f(ctx: Context, R: Reporter, subs: List[ClassInfo]):
     R.floor("C03.f", "kernels with identically zero correction", n, 1)
 
 
+def rule_g(ctx: Context, R: Reporter, base: ClassInfo, subs: List[ClassInfo]):
+    """C03.g  the Markov kernel of one run is a *fixed* kernel: the quantities that parametrise the proposal and the
+    acceptance ratio -- the walkers' mode labels and the per-mode statistics -- are set by the constructor and never
+    re-bound or modified by the running kernel.  A label (or a statistic) that follows the walker's position makes the
+    proposal state-dependent in a way the acceptance ratio does not account for (the reverse move is proposed with
+    other statistics), so the target is no longer invariant.  (The step size sigma is adapted between steps from the
+    acceptance rate alone; that is the repository's own diminishing adaptation and is not covered here.)"""
+    fixed = {"assignments", "mode_stats", "n_clusters"}
+    for c in [base] + subs:
+        fixed |= {k.split(".", 1)[1] for k in _mode_attr_sources(ctx, c)}
+    n = 0
+    n_attrs = 0
+    for c in [base] + subs:
+        for m in c.methods.values():
+            for st in walk_no_nested(m.node):
+                tgs = []
+                if isinstance(st, ast.Assign):
+                    tgs = [x for t in st.targets for x in (t.elts if isinstance(t, (ast.Tuple, ast.List)) else [t])]
+                elif isinstance(st, (ast.AugAssign, ast.AnnAssign)):
+                    tgs = [st.target]
+                elif isinstance(st, ast.Expr) and isinstance(st.value, ast.Call) and isinstance(st.value.func, ast.Attribute) and st.value.func.attr in ("fill", "sort", "put", "resize", "update", "append", "extend"):
+                    tgs = [st.value.func.value]
+                for t in tgs:
+                    b = t
+                    sub = False
+                    while isinstance(b, ast.Subscript):
+                        b = b.value
+                        sub = True
+                    if isinstance(b, ast.Attribute) and isinstance(b.value, ast.Name) and b.value.id == "self" and b.attr in fixed:
+                        n += 1
+                        ok = m.name == "__init__" and not sub
+                        R.check("C03.g", f"`self.{b.attr}` (labels / mode statistics of the kernel) is set by the constructor only", ok, m, st,
+                                msg=f"{m.short}: `{unparse(st)[:70]}` changes `self.{b.attr}` while the kernel runs: the mode that drives a walker's proposal and Student-t correction then "
+                                    f"depends on the walker's state, but the acceptance ratio treats it as fixed -- detailed balance with respect to the tempered target is lost",
+                                key=f"kernel-parameter-rebound:{c.name}.{b.attr}" if not ok else f"kernel-parameter:{c.name}.{b.attr}:{m.name}")
+    R.floor("C03.g", "bindings of the kernel's labels / mode statistics", n, 4)
+
+
+def rule_h(ctx: Context, R: Reporter, base: ClassInfo, subs: List[ClassInfo]):
+    """C03.h  numpy contract in the kernels: no store through chained advanced indexing (`a[idx][mask] = v` writes into a
+    temporary copy and leaves `a` unchanged).  In a proposal routine that is how re-drawn, in-bounds proposals get lost
+    and the first, out-of-bounds draw is offered to the Metropolis test instead."""
+    from ..util import lost_fancy_stores
+
+    n = 0
+    for c in [base] + subs:
+        for m in c.methods.values():
+            n += 1
+            for (st, idx, why) in lost_fancy_stores(m.node):
+                R.check("C03.h", "no store goes through chained advanced indexing", False, m, st,
+                        msg=f"{m.short}: `{unparse(st)[:70]}` assigns through `[{idx}]`, which is {why}: advanced indexing returns a copy, so the store is lost and the array keeps its "
+                            f"old rows (e.g. proposals that failed the bounds test are kept and offered to the acceptance step)", key=f"lost-fancy-store:{m.short}")
+    R.check("C03.h", "kernel methods scanned for lost stores", True, None, None, key="lost-fancy-store-scan")
+    R.floor("C03.h", "kernel methods scanned", n, 8)
+
+
 def run(ctx: Context, R: Reporter):
     base, subs = kernels(ctx)
     R.guard(rule_a, ctx, R, subs)
     R.guard(rule_bc, ctx, R, base, subs)
     R.guard(rule_de, ctx, R, subs)
     R.guard(rule_f, ctx, R, subs)
+    R.guard(rule_g, ctx, R, base, subs)
+    R.guard(rule_h, ctx, R, base, subs)
 
 
 def variants():
@@ -748,7 +806,13 @@ def variants():
 
     mc = "tempest/mcmc.py"
     T = "TPCNRunner"
+    from ..variants import insert_after as _ia
+
     return [
+        Variant("g-relabel-accepted-walkers", "bad", _ia(mc, "BaseMCMCRunner.run", "self.logl[mask_accept] = logl_prime[mask_accept]", "self.assignments[mask_accept] = np.argmin(np.linalg.norm(self.u[mask_accept][:, None, :] - self.mode_stats.means[None, :, :], axis=2), axis=1)"), ["C03.g"], quick=True),
+        Variant("h-redraw-lost-in-copy", "bad", _ia(mc, "BaseMCMCRunner.run", "u_prime[k] = self._propose(k)", "bad = np.flatnonzero(~check_bounds(u_prime, self.periodic, self.reflective))\ninside = check_bounds(u_prime[bad], self.periodic, self.reflective)\nu_prime[bad][inside] = 0.5"), ["C03.h"], quick=True),
+        Variant("h-benign-redraw-stored-by-index", "benign", _ia(mc, "BaseMCMCRunner.run", "u_prime[k] = self._propose(k)", "bad = np.flatnonzero(~check_bounds(u_prime, self.periodic, self.reflective))\ninside = check_bounds(u_prime[bad], self.periodic, self.reflective)\nu_prime[bad[inside]] = u_prime[bad[inside]]")),
+        Variant("g-benign-local-label-view", "benign", _ia(mc, "BaseMCMCRunner.run", "self.logl[mask_accept] = logl_prime[mask_accept]", "labels_now = self.assignments[mask_accept]")),
         Variant("b-one-sided-const", "bad", replace_expr(mc, f"{T}._compute_acceptance_factor", "np.log(1 + dot_prime / self.degrees_of_freedom[self.assignments])", "np.log(1 + dot_prime / (self.degrees_of_freedom[self.assignments] + 1))"), ["C03.b"], quick=True),
         Variant("b-missing-one-plus", "bad", replace_expr(mc, f"{T}._compute_acceptance_factor", "np.log(1 + dot_products / self.degrees_of_freedom[self.assignments])", "np.log(dot_products / self.degrees_of_freedom[self.assignments])"), ["C03.b"]),
         Variant("c-sign-error", "bad", replace_stmt(mc, f"{T}._compute_acceptance_factor", "return -A + B", "return A - B"), ["C03.c"], quick=True),
